@@ -138,13 +138,39 @@ pub fn run(args: &Args) -> Report {
         let mut ok = true;
         let mut events: Vec<std::rc::Rc<Ev>> = vec![];
         for k in 0..nstores {
+            // mostly plain notes; every few stores one that makes the store remove an earlier event
+            // (a newer replaceable / parameterised event, or a deletion request naming a tracked one),
+            // and now and then an explicit removal: references to removed events stay valid too
+            let shape = k % 7;
+            let author_n = (k % 3) as u8;
+            let (kind, mut tags): (u16, Vec<Vec<String>>) = match shape {
+                2 => (10002, vec![]),
+                4 => (30023, vec![vec!["d".into(), "x".into()]]),
+                _ => (1, vec![vec!["t".into(), "r".into()]]),
+            };
+            let mut kind = kind;
+            if shape == 6 {
+                if let Some(victim) = events.iter().rev().find(|v| v.sem.pubkey == crate::dbgen::author(author_n)) {
+                    kind = 5;
+                    tags = vec![vec!["e".into(), hex(&victim.sem.id)]];
+                }
+            }
+            if k % 11 == 10 {
+                if let Some(victim) = events.get(k / 2) {
+                    let _ = store.remove_event(Id::from_bytes(victim.sem.id));
+                    rep.count("explicit_removals");
+                }
+            }
+            if kind != 1 {
+                rep.count("stores_that_remove_an_earlier_event");
+            }
             let e = Ev::new(SemEvent {
                 id: rng.arr32(),
-                pubkey: crate::dbgen::author((k % 3) as u8),
+                pubkey: crate::dbgen::author(author_n),
                 sig: [1; 64],
-                kind: 1,
+                kind,
                 created_at: 1000 + k as u64,
-                tags: vec![vec!["t".into(), "r".into()]],
+                tags,
                 content: "x".repeat(content_len + (k % 9)),
             })
             .unwrap();
